@@ -340,3 +340,99 @@ M("thr1-and", "C07", GL, "if inner_frame is None or not thread.is_alive() or not
 M("thr1-sample-order", "C07", GL, "        was_alive = thread.is_alive()\n        inner_frame = sys._current_frames().get(thread.ident)  # type: ignore\n", "        inner_frame = sys._current_frames().get(thread.ident)  # type: ignore\n        was_alive = thread.is_alive()\n", "THR-1")
 T("twin-thr1-demorgan", "C07", GL, "if inner_frame is None or not thread.is_alive() or not was_alive:", "if not (inner_frame is not None and thread.is_alive() and was_alive):")
 T("twin-snap3-first-recheck-deleted", "C07", L311, "                ctypes.addressof(iframe_raw) + stack_start_offset\n            )\n            assert frame.f_lasti == lasti_before\n", "                ctypes.addressof(iframe_raw) + stack_start_offset\n            )\n")
+
+TY = "_types.py"
+# ---------------------------------------------------------------- C04
+M("slc1-inner-dropped", "C04", GL, "        if inner_frame is None and outer_frame is not None:\n            del frames[spec.limit :]", "        if outer_frame is not None:\n            del frames[spec.limit :]", "SLC-1")
+M("slc1-outer-dropped", "C04", GL, "        if inner_frame is None and outer_frame is not None:\n            del frames[spec.limit :]", "        if inner_frame is None:\n            del frames[spec.limit :]", "SLC-1")
+M("slc1-or", "C04", GL, "        if inner_frame is None and outer_frame is not None:\n            del frames[spec.limit :]", "        if inner_frame is None or outer_frame is not None:\n            del frames[spec.limit :]", "SLC-1")
+M("slc1-branches-swapped", "C04", GL, "            del frames[spec.limit :]\n        else:\n            del frames[: -spec.limit]", "            del frames[: -spec.limit]\n        else:\n            del frames[spec.limit :]", "SLC-1")
+M("slc1-guard-none", "C04", GL, "    if spec.limit is not None and len(frames) > spec.limit:", "    if spec.limit is not None or len(frames) > spec.limit:", "SLC-1")
+M("slc2-since-inner", "C04", EX, "        StackSlice(outer=outer_frame),\n", "        StackSlice(inner=outer_frame),\n", "SLC-2")
+M("slc2-until-outer", "C04", EX, "        return extract(StackSlice(inner=inner_frame, limit=limit), **opts)", "        return extract(StackSlice(outer=inner_frame, limit=limit), **opts)", "SLC-2")
+M("slc2-until-limit-dropped", "C04", EX, "        return extract(StackSlice(inner=inner_frame, limit=limit), **opts)", "        return extract(StackSlice(inner=inner_frame), **opts)", "SLC-2")
+M("slc2-until-swapped", "C04", EX, "        return extract(StackSlice(outer=outer_frame, inner=inner_frame), **opts)", "        return extract(StackSlice(outer=inner_frame, inner=outer_frame), **opts)", "SLC-2")
+M("slc2-positional", "C04", GL, "        return StackSlice(inner=inner_frame)\n\n    # Don't show thread bootstrap", "        return StackSlice(inner_frame)\n\n    # Don't show thread bootstrap", "SLC-2")
+M("slc3-is-mine-tests", "C04", GL, '        return name.startswith("stackscope.") and not name.startswith(\n            "stackscope._tests."\n        )', '        return name.startswith("stackscope.")', "SLC-3")
+M("slc3-is-mine-prefix", "C04", GL, '        return name.startswith("stackscope.") and not name.startswith(', '        return name.startswith("stackscope") and not name.startswith(', "SLC-3")
+M("slc3-singledispatch-dropped", "C04", GL, '        is_mine(caller.f_globals.get("__name__", ""))\n        or caller.f_code is functools_singledispatch_wrapper\n', '        is_mine(caller.f_globals.get("__name__", ""))\n', "SLC-3")
+M("slc4-gen-inner", "C04", GL, "            return StackSlice(outer=gen.gi_frame)", "            return StackSlice(inner=gen.gi_frame)", "SLC-4")
+M("slc4-agen-await-dropped", "C04", GL, "        if agen.ag_running and agen.ag_await is None:", "        if agen.ag_running:", "SLC-4")
+M("slc4-coro-order", "C04", GL, "        return (coro.cr_frame, coro.cr_await)", "        return (coro.cr_await, coro.cr_frame)", "SLC-4")
+T("twin-slc1-demorgan", "C04", GL, "        if inner_frame is None and outer_frame is not None:\n            del frames[spec.limit :]\n        else:\n            del frames[: -spec.limit]",
+  "        if inner_frame is not None or outer_frame is None:\n            del frames[: -spec.limit]\n        else:\n            del frames[spec.limit :]")
+
+# ---------------------------------------------------------------- C09
+M("gcm1-always", "C09", GL, "        if not context.is_exiting:\n            context.inner_stack = _extract.extract_child(mgr.gen, for_task=False)", "        if True:\n            context.inner_stack = _extract.extract_child(mgr.gen, for_task=False)", "GCM-1")
+M("gcm1-inverted", "C09", GL, "        if not context.is_exiting:\n            context.inner_stack = _extract.extract_child(mgr.gen, for_task=False)", "        if context.is_exiting:\n            context.inner_stack = _extract.extract_child(mgr.gen, for_task=False)", "GCM-1")
+M("gcm1-backport-always", "C09", GL, "        if not context.is_exiting:\n            context.inner_stack = _extract.extract_child(mgr._agen, for_task=False)", "        if True:\n            context.inner_stack = _extract.extract_child(mgr._agen, for_task=False)", "GCM-1")
+M("gcm1-for-task", "C09", GL, "context.inner_stack = _extract.extract_child(mgr.gen, for_task=False)", "context.inner_stack = _extract.extract_child(mgr.gen, for_task=True)", "GCM-1")
+M("ctx8-polarity", "C09", GL, "                is_async=not is_sync,", "                is_async=is_sync,", "CTX-8")
+M("ctx8-await-tag", "C09", GL, '                    tag = "" if is_sync else "await "', '                    tag = "await " if is_sync else ""', "CTX-8")
+M("ctx6-pair-mixed", "C09", GL, '                    method = "enter_context" if is_sync else "enter_async_context"', '                    method = "enter_context" if is_sync else "push_async_exit"', "CTX-6")
+M("ctx6-pair-swapped", "C09", GL, '                method = "callback" if is_sync else "push_async_callback"', '                method = "push_async_callback" if is_sync else "callback"', "CTX-6")
+M("ctx6-wrapper-name", "C09", GL, 'and getattr(callback, "__name__", None) == "_exit_wrapper"', 'and getattr(callback, "__name__", None) == "_exit_wrap"', "CTX-6")
+M("ctx6-freevars", "C09", GL, 'and set(callback.__code__.co_freevars) >= {"args", "kwds"}', 'and set(callback.__code__.co_freevars) >= {"args", "kwargs"}', "CTX-6", accept_analysis_error=True)
+M("ctx6-tuple-order", "C09", GL, "        for idx, (is_sync, callback) in enumerate(callbacks):", "        for idx, (callback, is_sync) in enumerate(callbacks):", "CTX-6")
+M("ctx6-private-attr", "C09", GL, "list(stack._exit_callbacks)", "list(stack._callbacks)", "CTX-6", accept_analysis_error=True)
+M("ctx6-cells-swapped", "C09", GL, "                            callback.__closure__[args_idx].cell_contents,\n                            callback.__closure__[kwds_idx].cell_contents,", "                            callback.__closure__[kwds_idx].cell_contents,\n                            callback.__closure__[args_idx].cell_contents,", "CTX-6")
+M("ctx6-exit-names", "C09", GL, 'or callback.__func__.__name__ in ("__exit__", "__aexit__")', 'or callback.__func__.__name__ in ("__exit__",)', "CTX-6")
+M("ctx7-reversed", "C09", GL, "list(stack._exit_callbacks)", "list(reversed(stack._exit_callbacks))", "CTX-7", accept_analysis_error=True)
+M("ctx7-no-fill", "C09", GL, "            _extract.fill_context(child_context)\n", "", "CTX-7")
+M("ctx7-children-in-loop", "C09", GL, "            children.append(child_context)\n\n        context.children = children", "            children.append(child_context)\n            context.children = children", "CTX-7")
+
+# ---------------------------------------------------------------- C18
+M("fmt1-marker-3wide", "C18", TY, 'start_frame = "+ " if opts.ascii_only else "╠ "', 'start_frame = "+  " if opts.ascii_only else "╠ "', "FMT-1")
+M("fmt1-ascii-nonascii", "C18", TY, 'continue_frame = "| " if opts.ascii_only else "║ "', 'continue_frame = "│ " if opts.ascii_only else "║ "', "FMT-1")
+M("fmt1-duplicate", "C18", TY, 'start_leaf = "+ " if opts.ascii_only else "╚ "', 'start_leaf = "+ " if opts.ascii_only else "╠ "', "FMT-1")
+M("fmt1-inverted", "C18", TY, 'start_code = "` " if opts.ascii_only else "└ "', 'start_code = "└ " if opts.ascii_only else "` "', "FMT-1")
+M("fmt1-map-not-function", "C18", TY, 'start_child = ". " if opts.ascii_only else "─ "', 'start_child = "- " if opts.ascii_only else "─ "', "FMT-1")
+M("fmt1-indicator-mismatch", "C18", TY, 'child_context_indicator = ". " if opts.ascii_only else "─ "', 'child_context_indicator = ". " if opts.ascii_only else "━ "', "FMT-1")
+M("fmt2-stack-flipped", "C18", TY, "            if frame.hide and not opts.show_hidden_frames:\n                continue", "            if frame.hide and opts.show_hidden_frames:\n                continue", "FMT-2")
+M("fmt2-context-always", "C18", TY, "        if self.hide and not opts.show_hidden_frames:\n            return []", "        if self.hide:\n            return []", "FMT-2")
+M("fmt2-context-deleted", "C18", TY, "        if self.hide and not opts.show_hidden_frames:\n            return []\n", "", "FMT-2")
+M("fmt3-stack-append-deleted", "C18", TY, "                marker = start_frame if idx == 0 else continue_frame\n                lines.append(marker + line)", "                marker = start_frame if idx == 0 else continue_frame", "FMT-3")
+M("fmt3-frame-branch-dropped", "C18", TY, "                    elif line.startswith(child_context_indicator):\n                        lines.append(start_child_context + line)\n                    else:\n                        lines.append(continue_context + line)", "                    elif line.startswith(child_context_indicator):\n                        lines.append(start_child_context + line)", "FMT-3")
+M("fmt3-context-append-deleted", "C18", TY, "                marker = start_child if idx == 0 else continue_child\n                lines.append(marker + line)", "                marker = start_child if idx == 0 else continue_child\n                if idx:\n                    lines.append(marker + line)", "FMT-3")
+M("fmt3-inner-stack-header-kept", "C18", TY, "lines.extend(self.inner_stack._format(opts)[1:])", "lines.extend(self.inner_stack._format(opts))", "FMT-3")
+M("fmt5-leaf-no-newline", "C18", TY, '            lines.append(f"{start_leaf}{self.leaf!r}\\n")', '            lines.append(f"{start_leaf}{self.leaf!r}")', "FMT-5")
+M("fmt5-code-no-newline", "C18", TY, '                lines.append(start_code + linetext + "\\n")', '                lines.append(start_code + linetext)', "FMT-5")
+M("fmt7-option-crossed", "C18", TY, "                show_contexts=show_contexts,\n                show_hidden_frames=show_hidden_frames,\n            )\n        )", "                show_contexts=show_hidden_frames,\n                show_hidden_frames=show_contexts,\n            )\n        )", "FMT-7")
+M("fmt7-show-contexts-ignored", "C18", TY, "        if opts.show_contexts:\n            for context in self.contexts:", "        if True:\n            for context in self.contexts:", "FMT-7")
+M("fmt7-str", "C18", TY, '        return "".join(self.format())', '        return "\\n".join(self.format())', "FMT-7")
+
+# ---------------------------------------------------------------- C19
+M("fmt2-summaries-flipped", "C19", TY, "            if frame.hide and not show_hidden_frames:\n                continue", "            if frame.hide or not show_hidden_frames:\n                continue", "FMT-2")
+M("fmt2-ctx-summaries-deleted", "C19", TY, "        if self.hide and not show_hidden_frames:\n            return\n", "", "FMT-2")
+M("fmt4-summary-first", "C19", TY, "        if not (self.contexts and self.contexts[-1].is_exiting):\n            yield self.as_stdlib_summary", "        if not (self.contexts and self.contexts[0].is_exiting):\n            yield self.as_stdlib_summary", "FMT-4", accept_analysis_error=True)
+M("fmt4-summary-always", "C19", TY, "        if not (self.contexts and self.contexts[-1].is_exiting):\n            yield self.as_stdlib_summary", "        if not (self.contexts or self.contexts[-1].is_exiting):\n            yield self.as_stdlib_summary", "FMT-4")
+M("fmt6-locals-raw", "C19", TY, "                name: repr(value) for name, value in self.pyframe.f_locals.items()", "                name: value for name, value in self.pyframe.f_locals.items()", "FMT-6")
+M("fmt6-ctx-locals-obj", "C19", TY, 'save_locals = {"<context manager>": self.description or repr(self.obj)}', 'save_locals = {"<context manager>": self.obj}', "FMT-6")
+M("fmt6-frame-arg", "C19", TY, "        return traceback.FrameSummary(\n            self.filename,\n            self.lineno,\n            self.funcname,\n            locals=save_locals,\n        )", "        return traceback.FrameSummary(\n            self.filename,\n            self.lineno,\n            self.funcname,\n            locals=save_locals,\n            lookup_line=False,\n            line=self.pyframe,  # type: ignore\n        )", "FMT-6")
+M("fmt6-arg-order", "C19", TY, "            self.filename,\n            self.lineno,\n            self.funcname,\n            locals=save_locals,", "            self.filename,\n            self.funcname,\n            self.lineno,\n            locals=save_locals,", "FMT-6")
+M("fmt8-flat-always-summary", "C19", TY, "        if self.frames:\n            lines.extend(self.as_stdlib_summary(show_contexts=show_contexts).format())", "        lines.extend(self.as_stdlib_summary(show_contexts=show_contexts).format())", "FMT-8")
+M("fmt8-flat-contexts-dropped", "C19", TY, "lines.extend(self.as_stdlib_summary(show_contexts=show_contexts).format())", "lines.extend(self.as_stdlib_summary().format())", ["FMT-8", "FMT-9"])
+M("fmt9-positional-swapped", "C19", TY, "            self._frame_summaries(show_contexts, show_hidden_frames, capture_locals)", "            self._frame_summaries(show_hidden_frames, show_contexts, capture_locals)", "FMT-9")
+M("fmt9-capture-dropped", "C19", TY, "                yield frame.as_stdlib_summary(capture_locals=capture_locals)", "                yield frame.as_stdlib_summary()", "FMT-9")
+M("fmt9-hidden-const", "C19", TY, "                    show_hidden_frames=show_hidden_frames, capture_locals=capture_locals\n                )", "                    show_hidden_frames=False, capture_locals=capture_locals\n                )", "FMT-9")
+M("fmt9-ctx-positional-swapped", "C19", TY, "            yield from context._frame_summaries(\n                self, show_hidden_frames, capture_locals\n            )", "            yield from context._frame_summaries(\n                self, capture_locals, show_hidden_frames\n            )", "FMT-9")
+
+# ---------------------------------------------------------------- C20
+M("cont7-narrow", "C20", LL, "        except Exception as ex:\n            warnings.warn(\n                \"Inspection trickery failed on frame", "        except AssertionError as ex:\n            warnings.warn(\n                \"Inspection trickery failed on frame", "CONT-7")
+M("cont7-reraise", "C20", LL, "            traceback.print_exc()\n            ret = _contexts_active_by_referents(frame, origin)\n    else:", "            traceback.print_exc()\n            ret = _contexts_active_by_referents(frame, origin)\n            raise\n    else:", "CONT-7")
+M("cont7-no-fallback", "C20", LL, "            traceback.print_exc()\n            ret = _contexts_active_by_referents(frame, origin)\n    else:", "            traceback.print_exc()\n    else:", "CONT-7")
+M("cont7-origin-dropped", "C20", LL, "            traceback.print_exc()\n            ret = _contexts_active_by_referents(frame, origin)\n    else:", "            traceback.print_exc()\n            ret = _contexts_active_by_referents(frame, None)\n    else:", "CONT-7")
+M("mode0-thread-local", "C20", LL, "_can_use_trickery: Optional[bool] = None\n", "_can_use_trickery: Optional[bool] = True\n", "MODE-0")
+M("mode1-no-lock", "C20", LL, "    global _can_use_trickery\n    with _trickery_lock:\n        _can_use_trickery = enabled", "    global _can_use_trickery\n    if True:\n        _can_use_trickery = enabled", "MODE-1")
+M("mode2-bool", "C20", LL, "        _can_use_trickery = enabled\n", "        _can_use_trickery = bool(enabled)\n", "MODE-2")
+M("mode2-fast-path-inverted", "C20", LL, "    global _can_use_trickery\n    if _can_use_trickery is not None:\n        return _can_use_trickery\n    with _trickery_lock:", "    global _can_use_trickery\n    if _can_use_trickery:\n        return _can_use_trickery\n    with _trickery_lock:", "MODE-2")
+M("mode2-no-retest", "C20", LL, "        if _can_use_trickery is not None:  # pragma: no cover\n            return _can_use_trickery\n", "", "MODE-2")
+M("mode3-no-store", "C20", LL, "                traceback.print_exc()\n                _can_use_trickery = False\n", "                traceback.print_exc()\n", "MODE-3")
+M("mode1-extra-writer", "C20", LL, "    ret: List[Context] = []\n    if _check_trickery_available():", "    global _can_use_trickery\n    ret: List[Context] = []\n    if _check_trickery_available():", "MODE-1",
+  extra=[("            traceback.print_exc()\n            ret = _contexts_active_by_referents(frame, origin)\n    else:", "            traceback.print_exc()\n            _can_use_trickery = False\n            ret = _contexts_active_by_referents(frame, origin)\n    else:")])
+M("ref1-async-inverted", "C20", LL, 'is_async="a" in referent.__func__.__name__,', 'is_async="e" in referent.__func__.__name__,', "REF-1")
+M("ref1-obj-func", "C20", LL, "                    obj=referent.__self__,", "                    obj=referent.__func__,", "REF-1")
+M("ref1-root-312", "C20", LL, "    if sys.version_info >= (3, 11) and isinstance(\n        origin, (types.GeneratorType", "    if sys.version_info >= (3, 12) and isinstance(\n        origin, (types.GeneratorType", "REF-1")
+M("ref1-root-always", "C20", LL, "    if sys.version_info >= (3, 11) and isinstance(\n        origin, (types.GeneratorType", "    if sys.version_info >= (3, 9) and isinstance(\n        origin, (types.GeneratorType", "REF-1")
+M("ref1-exit-only", "C20", LL, '        if isinstance(referent, types.MethodType) and referent.__func__.__name__ in (\n            "__exit__",\n            "__aexit__",\n        ):', '        if isinstance(referent, types.MethodType) and referent.__func__.__name__ in (\n            "__exit__",\n        ):', "REF-1")
+M("c20-exi1-prepend", "C20", LL, "        ret.append(Context(obj=None, is_async=exiting.is_async, is_exiting=True))", "        ret.insert(0, Context(obj=None, is_async=exiting.is_async, is_exiting=True))", "EXI-1")
